@@ -3,9 +3,9 @@ CONSTANTS
   Names <- NamesAB
   Delim <- DelimColons
   RawChars <- CharsColons
-  MaxLen = 2
-  MaxInserts = 4
+  MaxLen = 3
+  MaxInserts = 2
   WithRoot = FALSE
-  RawLen = 3
+  RawLen = 4
   Emit = TRUE
-INVARIANTS GetEqualsSpecFast StructureOK EmitCases
+INVARIANTS GetEqualsSpec GetEqualsSpecFast StructureOK EmitCases
